@@ -228,3 +228,24 @@ Proof.
   assert (AF : skipn (S k) rest = tail) by (unfold rest, k; apply skipn_app_S).
   rewrite CM, AF. reflexivity.
 Qed.
+
+(* ---------- from_utf8_lossy is the identity on valid UTF-8 (a stored comment is the lossy conversion of its bytes) ---------- *)
+Lemma utf8_chunk_pos s ok n : s <> [] -> utf8_chunk s = (ok, n) -> (1 <= n)%nat.
+Proof.
+  intros NE. destruct s as [|b0 r]; [congruence|]. unfold utf8_chunk.
+  repeat match goal with
+         | |- context [if ?c then _ else _] => destruct c
+         | |- context [match ?l with [] => _ | _ :: _ => _ end] => destruct l
+         end; intros [= <- <-]; lia.
+Qed.
+
+Lemma utf8_lossy_valid_fuel : forall f s, (List.length s < f)%nat -> utf8_valid_fuel f s = true -> utf8_lossy_fuel f s = s.
+Proof.
+  induction f as [|f IH]; intros s L V; [lia|]. cbn [utf8_valid_fuel utf8_lossy_fuel] in *.
+  destruct s as [|b0 r]; [reflexivity|]. destruct (utf8_chunk (b0 :: r)) as [ok n] eqn:C.
+  destruct ok; [|discriminate V]. pose proof (utf8_chunk_pos (b0 :: r) true n ltac:(discriminate) C) as N1.
+  rewrite IH; [apply firstn_skipn| |exact V]. rewrite skipn_length. cbn [List.length] in *. lia.
+Qed.
+
+Lemma utf8_lossy_valid s : utf8_valid s = true -> utf8_lossy s = s.
+Proof. unfold utf8_valid, utf8_lossy. apply utf8_lossy_valid_fuel. lia. Qed.
